@@ -53,6 +53,11 @@ def run(ctx):
     rule_d2(ctx, cr)
     rule_e(ctx, cr)
     rule_f(ctx, cr)
+    ctx.rule("C06.g", "the hidden variables of DEF FN parameters are typed like the parameter: the "
+             "mangler moves exactly the store's type suffixes ($ ! # %) to the end of the mangled "
+             "name (see C10.a), so N% of a function is an Integer variable")
+    from rules import c10
+    c10.rule_suffix_set(ctx, cr, "C06.g")
 
 
 def rule_a(ctx, cr):
